@@ -408,11 +408,11 @@ CheckCb(tk, e, tk2) ==
     \cup V0((IsPhase(e.m) \/ e.m = M_QUERY) => <<e.m, e.s, e.j>> \notin tk.pseen,
             "C05", "the same callback of one class was invoked twice within one update() / react() / query()")
     \* ---- the request under evaluation names its requester (the class whose callback asked, NONE for the root and for outside calls)
-    \cup V(rstart /\ proc /\ FullObs /\ (~step \/ (HasHead /\ tk2.fired # <<>>)) /\ ExpectedPend(tk, tk2) # NoT
+    \cup V(rstart /\ proc /\ FullObs /\ (~step \/ pn = pb \/ (HasHead /\ tk2.fired # <<>>)) /\ ExpectedPend(tk, tk2) # NoT
              /\ e.pend[2] = ExpectedPend(tk, tk2)[2] /\ e.pend[3] = ExpectedPend(tk, tk2)[3]
              => e.pend[1] = ExpectedPend(tk, tk2)[1],
            "C06", "the pending transition shown to the guards does not name the requester of that request")
-    \cup V(HasHist /\ rstart /\ proc /\ FullObs /\ (~step \/ (HasHead /\ tk2.fired # <<>>)) /\ ExpectedPend(tk, tk2) # NoT
+    \cup V(HasHist /\ rstart /\ proc /\ FullObs /\ (~step \/ pn = pb \/ (HasHead /\ tk2.fired # <<>>)) /\ ExpectedPend(tk, tk2) # NoT
              /\ e.pend[2] = ExpectedPend(tk, tk2)[2] /\ e.pend[3] = ExpectedPend(tk, tk2)[3]
              => e.pend[1] = ExpectedPend(tk, tk2)[1],
            "C11", "the request under evaluation - recorded in the history when it survives - does not carry the origin of the request that was made")
